@@ -22,7 +22,7 @@ def merge(dst, src):
 
 
 def run_job(job):
-    from sim import engine, seams, shrink
+    from sim import engine, hermetic, seams, shrink
     from sim.known import Known
     from sim.util import vkey
 
@@ -44,6 +44,13 @@ def run_job(job):
         "shrink_execs": 0,
     }
     seen_keys = set()
+    child_counts = {"dirty": 0, "logs": {}}
+
+    def run(s):
+        res = hermetic.execute(mod, s)
+        child_counts["dirty"] += res.pop("_dirty_allocs", 0)
+        merge(child_counts["logs"], res.pop("_logs", {}))
+        return res
 
     def scenarios():
         if job.get("scenarios"):
@@ -67,7 +74,7 @@ def run_job(job):
             if scn is None:
                 scn = engine.generate(prop, job["verif_seed"], idx, job["tier"])
             scn.setdefault("env", {})["hashseed"] = out["hashseed"]
-            res = mod.execute(copy.deepcopy(scn))
+            res = run(copy.deepcopy(scn))
         except Exception as e:  # noqa: BLE001 - harness failure, classified apart from violations
             out["harness_errors"].append({"kind": kind, "index": idx, "error": repr(e), "trace": traceback.format_exc()[-1500:]})
             continue
@@ -92,7 +99,7 @@ def run_job(job):
         # in-process determinism self-check on a slice of the runs
         if out["selfcheck"]["checked"] < job.get("selfcheck", 0):
             try:
-                res2 = mod.execute(copy.deepcopy(scn))
+                res2 = run(copy.deepcopy(scn))
                 out["selfcheck"]["checked"] += 1
                 if (res2.get("event_digest"), res2.get("end_state"), [vkey(v) for v in res2["violations"]]) != (
                     res.get("event_digest"),
@@ -114,12 +121,12 @@ def run_job(job):
             cands = getattr(mod, "candidates", shrink.pipeline_candidates)
             # full minimisation effort for the first two distinct violations of this worker, a short one for the rest
             secs = job.get("shrink_seconds", 40) if len(seen_keys) <= 2 else min(8, job.get("shrink_seconds", 40))
-            small, execs = shrink.shrink(scn, key, mod.execute, cands, max_execs=job.get("shrink_execs", 300), max_seconds=secs)
+            small, execs = shrink.shrink(scn, key, run, cands, max_execs=job.get("shrink_execs", 300), max_seconds=secs)
             out["shrink_execs"] += execs
             out["violations"].append({"violation": v, "scenario": small, "original": {"kind": kind, "index": idx}, "shrink_execs": execs})
     out["executed"] = executed
-    out["dirty_allocs"] = seams.STATS["dirty_allocs"]
-    out["logs"] = dict(seams.LOGS.counts)
+    out["dirty_allocs"] = seams.STATS["dirty_allocs"] + child_counts["dirty"]
+    out["logs"] = merge(dict(seams.LOGS.counts), child_counts["logs"])
     seams.cleanup_scratch()
     return out
 
